@@ -196,7 +196,7 @@ func firstLines(s, marker string, n int) string {
 // matches: does the harness result contain a concrete violation of the property being checked?
 func (c *checkCtx) matches(r *replayResult) bool {
 	related := map[string][]string{
-		"C01": {"C01", "C07"}, "C07": {"C07", "C01"}, "C15": {"C01", "C07", "C15"}, "C08": {"C08"}, "C09": {"C09", "C10"}, "C10": {"C10"},
+		"C01": {"C01", "C07", "C13", "C03"}, "C07": {"C07", "C01"}, "C15": {"C01", "C07", "C15"}, "C08": {"C08"}, "C09": {"C09", "C10"}, "C10": {"C10"},
 		"C11": {"C11"}, "C02": {"C02", "C01", "C13"}, "C03": {"C03"}, "C12": {"C01", "C12"}, "C13": {"C13"}, "C14": {"C14"}, "C16": {"C16"},
 		"C17": {"C17"}, "C18": {"C18"}, "C19": {"C19"}, "C20": {"C20"}, "C04": {"C04"}, "C05": {"C05"}, "C06": {"C06"},
 	}
